@@ -1,0 +1,14 @@
+//go:build verif
+
+package message
+
+// Read-only exports for the verification harness of property C15 (build tag verif only).
+
+const (
+	// VerifC15MaxPathValue is the longest path segment setPath / SetBytes(URIPath) accept.
+	VerifC15MaxPathValue = maxPathValue
+	// VerifC15Max{1,2,3}ByteNumber are the thresholds of EncodeUint32.
+	VerifC15Max1ByteNumber = max1ByteNumber
+	VerifC15Max2ByteNumber = max2ByteNumber
+	VerifC15Max3ByteNumber = max3ByteNumber
+)
